@@ -9,6 +9,8 @@ package main
 //                (directory histories: "m: o: s: cm: co:", c* = order-independent rendering)
 
 import (
+	"crypto/md5"
+	"encoding/hex"
 	"errors"
 	"fmt"
 	"io"
@@ -18,6 +20,8 @@ import (
 	"sort"
 	"strconv"
 	"strings"
+	"sync"
+	"sync/atomic"
 	"syscall"
 
 	"github.com/avfs/avfs"
@@ -25,7 +29,7 @@ import (
 	"github.com/avfs/avfs/vfs/orefafs"
 )
 
-func init() { commands["fileio"] = runFileIO }
+func init() { commands["fileio"] = runFileIO; commands["fileio-o"] = runFileIOProj }
 
 // ---- error kinds ---------------------------------------------------------------
 func fioKind(err error) string {
@@ -276,7 +280,18 @@ func (w *fioWorld) view() string {
 		}
 		parts = append(parts, st, w.apply([]string{"RA", ks, strconv.Itoa(size + 1), "0"}))
 	}
-	return strings.Join(parts, ",")
+	return fioDigest(strings.Join(parts, ","))
+}
+
+// long views travel as digests (VERIF_FIO_FULLVIEW=1 keeps the text, for debugging a replay)
+var fioFullView = os.Getenv("VERIF_FIO_FULLVIEW") == "1"
+
+func fioDigest(v string) string {
+	if fioFullView || len(v) <= 32 {
+		return v
+	}
+	d := md5.Sum([]byte(v))
+	return hex.EncodeToString(d[:])
 }
 
 // offsets: the position of every descriptor (Seek(0, io.SeekCurrent) changes nothing); part of the state key only
@@ -304,22 +319,48 @@ type fioTrio struct {
 }
 
 var fioScratch string
-var fioSeq int
+var fioSeq int64
+var fioScratchOnce sync.Once
 
 func fioScratchDir() string {
-	if fioScratch == "" {
+	fioScratchOnce.Do(func() {
 		d, err := os.MkdirTemp("/dev/shm", "verif-fileio-")
 		if err != nil {
 			panic(err)
 		}
 		fioScratch = d
-	}
+	})
 	return fioScratch
 }
 
+// parallelMap runs f(0..n-1) on a pool of workers and returns the results in index order
+func parallelMap[T any](n int, f func(i int) T) []T {
+	out := make([]T, n)
+	workers := 8
+	if n < workers {
+		workers = n
+	}
+	var next int64 = -1
+	var wg sync.WaitGroup
+	for w := 0; w < workers; w++ {
+		wg.Add(1)
+		go func() {
+			defer wg.Done()
+			for {
+				i := int(atomic.AddInt64(&next, 1))
+				if i >= n {
+					return
+				}
+				out[i] = f(i)
+			}
+		}()
+	}
+	wg.Wait()
+	return out
+}
+
 func newFioTrio() *fioTrio {
-	fioSeq++
-	d := filepath.Join(fioScratchDir(), strconv.Itoa(fioSeq))
+	d := filepath.Join(fioScratchDir(), strconv.FormatInt(atomic.AddInt64(&fioSeq, 1), 10))
 	if err := os.Mkdir(d, 0o755); err != nil {
 		panic(err)
 	}
@@ -492,18 +533,35 @@ type fioExplorer struct {
 	emitted int
 }
 
-func (e *fioExplorer) emitHistory(ops []string) (key string, S int, nh int) {
+type fioRun struct {
+	ops  []string
+	outs []string
+	key  string
+	S    int
+	nh   int
+}
+
+// runHistory executes a history on fresh worlds (no output)
+func fioRunHistory(ops []string) fioRun {
 	t := newFioTrio()
 	defer t.cleanup()
 	outs := make([]string, 0, len(ops))
 	for _, op := range ops {
 		outs = append(outs, t.step(op))
+	}
+	return fioRun{ops: ops, outs: outs, key: t.key(), S: t.refSize(), nh: len(t.osw.handles)}
+}
+
+func (e *fioExplorer) emitRun(r fioRun, distinct bool) {
+	for _, op := range r.ops {
 		e.o.count("op:" + strings.Fields(op)[0])
 	}
-	last := outs[len(outs)-1]
-	e.o.emit("file | "+strings.Join(ops, " | "), strings.Join(outs, " | "), strings.Fields(ops[len(ops)-1])[0]+"/"+last)
+	key := ""
+	if distinct {
+		key = strings.Fields(r.ops[len(r.ops)-1])[0] + "/" + r.outs[len(r.outs)-1]
+	}
+	e.o.emit("file | "+strings.Join(r.ops, " | "), strings.Join(r.outs, " | "), key)
 	e.emitted++
-	return t.key(), t.refSize(), len(t.osw.handles)
 }
 
 // explore: every (state reachable in < depth calls, call) pair, states identified by what the operating system
@@ -515,16 +573,11 @@ func (e *fioExplorer) explore(config []string, depth, level int) {
 		nh  int
 	}
 	base := append(append([]string{}, fioPrefix...), config...)
-	t := newFioTrio()
-	for _, op := range base {
-		t.step(op)
-	}
-	root := node{ops: base, S: t.refSize(), nh: len(t.osw.handles)}
-	seen := map[string]bool{t.key(): true}
-	t.cleanup()
-	frontier := []node{root}
+	r0 := fioRunHistory(base)
+	seen := map[string]bool{r0.key: true}
+	frontier := []node{{ops: base, S: r0.S, nh: r0.nh}}
 	for d := 0; d < depth && len(frontier) > 0; d++ {
-		var next []node
+		var jobs [][]string
 		for _, nd := range frontier {
 			var alpha []string
 			for k := 0; k < nd.nh; k++ {
@@ -536,15 +589,23 @@ func (e *fioExplorer) explore(config []string, depth, level int) {
 			}
 			alpha = append(alpha, pathOps(nd.S, level)...)
 			for _, op := range alpha {
-				if e.budget > 0 && e.emitted >= e.budget {
-					return
-				}
-				ops := append(append([]string{}, nd.ops...), op)
-				key, S, nh := e.emitHistory(ops)
-				if !seen[key] {
-					seen[key] = true
-					next = append(next, node{ops: ops, S: S, nh: nh})
-				}
+				jobs = append(jobs, append(append([]string{}, nd.ops...), op))
+			}
+		}
+		if e.budget > 0 && e.emitted+len(jobs) > e.budget {
+			n := e.budget - e.emitted
+			if n < 0 {
+				n = 0
+			}
+			jobs = jobs[:n]
+		}
+		runs := parallelMap(len(jobs), func(i int) fioRun { return fioRunHistory(jobs[i]) })
+		var next []node
+		for _, r := range runs {
+			e.emitRun(r, true)
+			if !seen[r.key] {
+				seen[r.key] = true
+				next = append(next, node{ops: r.ops, S: r.S, nh: r.nh})
 			}
 		}
 		e.o.extra[fmt.Sprintf("states_depth_%d", d+1)] = len(next)
@@ -553,14 +614,13 @@ func (e *fioExplorer) explore(config []string, depth, level int) {
 }
 
 // ---- random histories -------------------------------------------------------------------
-func (e *fioExplorer) random(r *rng, steps int) {
+func fioRandomHistory(r *rng, steps int) fioRun {
 	t := newFioTrio()
 	defer t.cleanup()
 	var ops, outs []string
 	do := func(op string) {
 		ops = append(ops, op)
 		outs = append(outs, t.step(op))
-		e.o.count("op:" + strings.Fields(op)[0])
 	}
 	for _, op := range fioPrefix {
 		do(op)
@@ -590,8 +650,7 @@ func (e *fioExplorer) random(r *rng, steps int) {
 			do(op)
 		}
 	}
-	e.o.emit("file | "+strings.Join(ops, " | "), strings.Join(outs, " | "), "")
-	e.emitted++
+	return fioRun{ops: ops, outs: outs}
 }
 
 // ---- directory handles ----------------------------------------------------------------------
@@ -754,13 +813,22 @@ func dirAlphabet(h, k int) []string {
 	return append(out, "DSK "+hs, "DR "+hs+" 0", "DR "+hs+" 1", "DCL "+hs)
 }
 
-func (e *fioExplorer) emitDir(names, ops []string) {
-	outs := runDirHistory(names, ops)
-	for _, op := range ops {
-		e.o.count("op:" + strings.Fields(op)[0])
+type dirRun struct {
+	names, ops, outs []string
+}
+
+func (e *fioExplorer) emitDirs(names []string, histories [][]string) {
+	runs := parallelMap(len(histories), func(i int) dirRun {
+		return dirRun{names: names, ops: histories[i], outs: runDirHistory(names, histories[i])}
+	})
+	for _, r := range runs {
+		for _, op := range r.ops {
+			e.o.count("op:" + strings.Fields(op)[0])
+		}
+		e.o.emit(dirHeader(r.names)+" | "+strings.Join(r.ops, " | "), strings.Join(r.outs, " | "),
+			"dir/"+strings.Join(r.ops[1:], "|")+r.outs[len(r.outs)-1])
+		e.emitted++
 	}
-	e.o.emit(dirHeader(names)+" | "+strings.Join(ops, " | "), strings.Join(outs, " | "), "dir/"+strings.Join(ops[1:], "|")+outs[len(outs)-1])
-	e.emitted++
 }
 
 // every history of `depth` calls on nh directory handles
@@ -773,10 +841,11 @@ func (e *fioExplorer) exploreDir(names []string, nh, depth int) {
 	for h := 0; h < nh; h++ {
 		base = append(base, "DOP")
 	}
+	var all [][]string
 	var rec func(ops []string, d int)
 	rec = func(ops []string, d int) {
 		if d == 0 {
-			e.emitDir(names, ops)
+			all = append(all, ops)
 			return
 		}
 		for _, a := range alpha {
@@ -784,9 +853,10 @@ func (e *fioExplorer) exploreDir(names []string, nh, depth int) {
 		}
 	}
 	rec(base, depth)
+	e.emitDirs(names, all)
 }
 
-func (e *fioExplorer) randomDir(r *rng, names []string, steps int) {
+func randomDirOps(r *rng, names []string, steps int) []string {
 	ops := []string{"DOP"}
 	nh := 1
 	for len(ops) < steps {
@@ -802,7 +872,7 @@ func (e *fioExplorer) randomDir(r *rng, names []string, steps int) {
 		}
 		ops = append(ops, op)
 	}
-	e.emitDir(names, ops)
+	return ops
 }
 
 // ---- replay ----------------------------------------------------------------------------------
@@ -885,8 +955,11 @@ func runFileIO(cfg config) {
 	if thorough {
 		nr = 600
 	}
-	for i := 0; i < nr; i++ {
-		e.random(r, 300)
+	rruns := parallelMap(nr, func(i int) fioRun {
+		return fioRandomHistory(&rng{s: cfg.seed*104729 + 7 + uint64(i+1)*7919}, 300)
+	})
+	for _, rr := range rruns {
+		e.emitRun(rr, false)
 	}
 	o.extra["file_histories"] = e.emitted
 	// (5) directory handles
@@ -904,10 +977,64 @@ func runFileIO(cfg config) {
 		if thorough {
 			nrd = 300
 		}
+		var rd [][]string
 		for i := 0; i < nrd; i++ {
-			e.randomDir(r, names, 60)
+			rd = append(rd, randomDirOps(r, names, 60))
 		}
+		e.emitDirs(names, rd)
 	}
 	o.extra["dir_histories"] = e.emitted - nfile
 	o.rule = "handle-operation histories on MemFS, OrefaFS and *os.File (fresh tmpfs directory): (1) every open-flag combination {O_RDONLY,O_WRONLY,O_RDWR} x subsets of {O_APPEND,O_TRUNC,O_CREATE,O_EXCL} with every (reachable state, call) pair to the stated depth, states identified by content/size/attributes through every name and descriptor plus offsets; (2) multi-handle configurations deeper; (3) random pairs of flag combinations, full alphabet; (4) random 300-step histories over <=3 open handles with re-opens and path-level Truncate/Rename/Link/Remove; offsets, lengths and sizes from {-1,0,1,S-1,S,S+1,S+7} around the current size S, whence from {0,1,2,-1,5}; (5) directory handles: every history of ReadDir/Readdirnames(n in {-1,0,1,2,k,k+1})/Seek(0,0)/Read/Close to the stated depth on directories of 0, 1 and 3 entries + random ones. After every step the content, size, link count and attributes seen through every name (Stat, ReadFile) and every descriptor (Stat, ReadAt) are compared as well."
+}
+
+// ---- the O projection (implementation versus os.File), used to shrink and replay deviations -------------
+func fioFields(step string) map[string]string {
+	m := map[string]string{}
+	for _, f := range strings.Fields(step) {
+		if i := strings.IndexByte(f, ':'); i > 0 {
+			m[f[:i]] = f[i+1:]
+		}
+	}
+	return m
+}
+
+func fioProjDev(r, rs, v, vs string) string {
+	if r != rs {
+		return fmt.Sprintf("DEV:r:%s/%s", r, rs)
+	}
+	if v != vs {
+		return fmt.Sprintf("DEV:v:%s/%s", v, vs)
+	}
+	return "eq"
+}
+
+func fioProject(isDir bool, observed string) string {
+	steps := strings.Split(observed, " | ")
+	out := make([]string, len(steps))
+	for i, st := range steps {
+		f := fioFields(st)
+		if isDir {
+			out[i] = fmt.Sprintf("m=%s o=%s", fioProjDev(f["cm"], f["s"], "", ""), fioProjDev(f["co"], f["s"], "", ""))
+		} else {
+			out[i] = fmt.Sprintf("m=%s o=%s", fioProjDev(f["m"], f["s"], f["vm"], f["vs"]), fioProjDev(f["o"], f["s"], f["vo"], f["vs"]))
+		}
+	}
+	return strings.Join(out, " | ")
+}
+
+// runFileIOProj: replay only. observed line = per step "m=eq|DEV.. o=eq|DEV.." ; the driver command
+// fileio-o prints "eq" up to the first classified step and the models' own projection afterwards.
+func runFileIOProj(cfg config) {
+	o := newOut(cfg.dir, cfg.name)
+	defer o.close(cfg.name)
+	defer func() {
+		if fioScratch != "" {
+			os.RemoveAll(fioScratch)
+		}
+	}()
+	syscall.Umask(0o22)
+	avfs.SetUMask(0o22)
+	for _, l := range cfg.replayLines() {
+		o.emit(l, fioProject(strings.HasPrefix(l, "dir"), fioReplayLine(l)), "")
+	}
 }
